@@ -189,11 +189,15 @@ Definition wf_layout (d : doc) (l : layout) : Prop :=
   (bom l = false -> has_bom (render d l) = false).
 
 (* ------------------------------------------------------------------ well-formed documents *)
-(* bare word: non-empty, no boundary byte, does not start with a double quote or a semicolon *)
+(* bare word: non-empty, no boundary byte, does not start with a double quote or a semicolon
+   (skipped as white space), and is not a lone '@' (which would glue to a following '[') *)
 Definition wf_unq (s : bytes) : bool :=
   match s with
   | [] => false
-  | c :: _ => negb (N.eqb c 34) && negb (N.eqb c 59) && forallb (fun b => negb (is_boundary b)) s
+  | c :: r =>
+      negb (N.eqb c 34) && negb (N.eqb c 59) &&
+      negb (N.eqb c 64 && match r with [] => true | _ => false end) &&
+      forallb (fun b => negb (is_boundary b)) s
   end.
 
 (* quoted content: every double quote is escaped, no dangling backslash *)
@@ -278,3 +282,12 @@ with wf_kvs (fs : fields) : bool :=
   end.
 
 Definition wf_doc (d : doc) : Prop := wf_fields d = true.
+
+(* ------------------------------------------------------------------ sub-grammars *)
+(* top-level fields `key op scalar` only *)
+Fixpoint flat_doc (d : fields) : bool :=
+  match d with
+  | FNil => true
+  | FCons (Field _ _ (Some _) (VScalar _ _)) d' => flat_doc d'
+  | FCons _ _ => false
+  end.
